@@ -60,6 +60,11 @@ def spec_check(d, t, r):
     lo, hi = min(e.start_size, e.end_size), max(e.start_size, e.end_size)
     if not (lo * (1 - 1e-9) <= v <= hi * (1 + 1e-9)):
         return ("size_at:not-between", "size outside [start_size, end_size]")
+    if not (lo <= v <= hi):
+        # outside in the last places only: binary64 rounding of the interpolation formula when its weight rounds to 1
+        # (a time next to, but not isclose to, the epoch end).  Recorded finding F24; refuted for binary64 in
+        # coq/Proofs/SizeBetweenRefutedF.v, proved over exact reals and rationals.
+        return ("size_at:not-between:last-place", "size outside [start_size, end_size] in the last place (%r not in [%r, %r])" % (v, lo, hi))
     return None
 
 
